@@ -72,6 +72,14 @@ def forbidden_scan():
             m = FORBIDDEN.search(line)
             if m:
                 hits.append('%s: %s' % (os.path.relpath(f, VERIF), m.group(0)))
+        # a Variable / Hypothesis outside every Section declares an axiom
+        stack = []
+        for n, line in enumerate(src.split('\n'), 1):
+            if re.match(r'\s*Section\s+\w+', line): stack.append('S')
+            elif re.match(r'\s*Module\s+(Type\s+)?\w+\s*\.', line): stack.append('M')
+            elif re.match(r'\s*End\s+\w+\s*\.', line) and stack: stack.pop()
+            elif re.match(r'\s*(Variable|Variables|Hypothesis|Hypotheses)\b', line) and 'S' not in stack:
+                hits.append('%s:%d: %s outside a section' % (os.path.relpath(f, VERIF), n, line.strip()[:40]))
     for f in [os.path.join(COQ, '_CoqProject')]:
         if os.path.exists(f) and re.search(r'type-in-type|impredicative-set|-vos|-vok', open(f).read()):
             hits.append('_CoqProject: forbidden flag')
